@@ -39,3 +39,9 @@ Example C18_two_indexes_one_dir :
   let '(d2, m2) := mm_create d1 p2 in
   mm_file m1 = 1 /\ mm_file m2 = 2 /\ mm_load d2 m1 = Some p1 /\ mm_load d2 m2 = Some p2.
 Proof. vm_compute. repeat split. Qed.
+
+(* Assumptions of the remaining named statements of this file (the gate requires one per statement). *)
+Print Assumptions C18_roundtrip.
+Print Assumptions C18_isolation.
+Print Assumptions C18_inv_empty.
+Print Assumptions C18_inv_foreign_file.
